@@ -12,7 +12,10 @@ LEVEL_NOTE = ("Trusted: Coq 8.16.1 kernel; no axioms (Print Assumptions of each 
 CLAIMS = {
     "C07": dict(
         technique="Coq proof (case analysis of the check phase against the admission rule with glob-based mask semantics; symbolic execution of the one-channel command) + 512-cell admission sweep against the real server with a rule oracle",
-        text="Theorems (props/C07.v) for ALL states, users, keys and configurations: the check phase of JOIN accepts an existing channel for a non-member iff key equals +k when set, no ban mask "
+        text="EXACTLY THOSE WHOM THE RULE ALLOWS, for every history (C07_member_only_if_admitted): over every event of every connection a user that holds a membership after the step which the same "
+             "connection's user did not hold before is the sender of the event, the event is its JOIN line, the channel stands at a position k of its list, the quota had room, and - when the "
+             "channel existed - the channel as it was before the line admitted it with the key at position k (key, bans/exceptions, invitation, limit); no other command and nobody else's command "
+             "makes anybody a member. Theorems (props/C07.v) for ALL states, users, keys and configurations: the check phase of JOIN accepts an existing channel for a non-member iff key equals +k when set, no ban mask "
              "globs the source unless an exception mask does, the channel is not +i or the user is invited or an invite-exception globs the source, and the member count is below +l; on refusal "
              "it reports exactly the first failing condition (475, 474, 473, 471); the whole one-channel command succeeds iff that rule and the max_joins quota hold, success inserts the member "
              "with the configured default ranks and consumes the invitation, refusal leaves the shared state identical, tells nobody else and answers the sender with a non-empty list. Comma "
@@ -20,7 +23,11 @@ CLAIMS = {
         design_ref="5 (C07)"),
     "C09": dict(
         technique="Coq proof (fold invariant over the victim loop: selected = named members the actor's rank may remove, duplicate-free; case analysis of TOPIC and INVITE) + 32x32 rank sweep against the real server with a rank-rule oracle",
-        text="GLOBAL (over every event of every connection, frames proved through all 41 commands, registration, teardown and KILL delivery): the topic of a channel that exists before and after a step is unchanged unless the event is a registered connection's TOPIC line naming that channel (C09_topic_changes_only_by_topic); a channel enters a user's pending invitations only through an INVITE line naming exactly that user and channel (C09_invitation_gained_only_by_invite) and a connected user loses a pending invitation only through its own JOIN (C09_invitation_lost_only_by_own_join). Theorems (props/C09.v) for ALL states and rank combinations: KICK selects exactly the named members that are neither founder nor protected and, for a mere half-operator, not "
+        text="OBEY RANK, for every history: a user who stays connected leaves a channel only by its own PART line or by a KICK line naming it whose sender was, before the line, a member holding "
+             "half-operator rank or above whose rank may remove the victim's (C09_removed_only_by_part_or_ranked_kick); a topic that differs after a step was set by a TOPIC line of a member who on +t "
+             "held half-operator rank or above (C09_topic_changed_only_by_rank); a new pending invitation was written by an INVITE line of a member who on an invite-only channel held the operator flag, "
+             "for a user not on the channel (C09_invited_only_by_rank). "
+             "GLOBAL (over every event of every connection, frames proved through all 41 commands, registration, teardown and KILL delivery): the topic of a channel that exists before and after a step is unchanged unless the event is a registered connection's TOPIC line naming that channel (C09_topic_changes_only_by_topic); a channel enters a user's pending invitations only through an INVITE line naming exactly that user and channel (C09_invitation_gained_only_by_invite) and a connected user loses a pending invitation only through its own JOIN (C09_invitation_lost_only_by_own_join). Theorems (props/C09.v) for ALL states and rank combinations: KICK selects exactly the named members that are neither founder nor protected and, for a mere half-operator, not "
              "half-operator or above - a duplicate-free list, so absent/repeated names are harmless - and selects nobody for an absent channel (403), an outsider (442) or a rank below half-operator (482), "
              "in which case nothing changes; the new state is the removal of the selected victims through remove_user_from_channel; TOPIC is set only by a member and on +t only by half-operator or "
              "above, stored with the setter's nick (empty text clears) and relayed to every member; INVITE is honoured only from a member (operator flag on +i) for a registered non-member, records "
